@@ -793,7 +793,7 @@ fn ctxsel(r: &mut Rng, c: &GenCfg) -> usize {
 }
 
 const FAMS: &[Fam] = &[
-    Fam { name: "fields", cost: 60, gen: |r, _| Op::new(*r.pick(&["fq_ops", "fr_ops", "fq2_ops", "fq6_ops", "fq12_ops"]), &[r.below(8), r.below(8)]) },
+    Fam { name: "fields", cost: 60, gen: |r, _| Op::new(*r.pick(&["fq_ops", "fr_ops", "fq2_ops", "fq6_ops", "fq12_ops", "fields_lite"]), &[r.below(8), r.below(8)]) },
     Fam { name: "h2f", cost: 30, gen: |r, _| Op::new("h2f", &[r.below(4), r.below(2), r.below(6), r.below(4), r.below(3)]) },
     Fam { name: "arith", cost: 10, gen: |r, _| gop("arith", &[r.below(8), r.below(8)], r) },
     Fam { name: "mul", cost: 300, gen: |r, _| gop(["mul", "amul", "ymul"][r.below(3)], &[r.below(8), rk(r)], r) },
@@ -960,4 +960,18 @@ pub fn catalogue(cfg: &GenCfg) -> Vec<Op> {
         }
     }
     v
+}
+
+// ---- re-exports for the Miri engine
+pub fn ensure_refs_pub(plan: &SchedPlan, refs: &mut Refs, ref_shared: &Shared) {
+    ensure_refs(plan, refs, ref_shared)
+}
+pub fn with_objs_pub<R>(plan: &SchedPlan, n: usize, f: impl FnOnce(Vec<ThreadObjs>) -> R) -> R {
+    with_objs(plan, n, f)
+}
+pub fn eval_caught_pub(op: &Op, sh: &Shared, rs: &RunShared, tl: &mut ThreadObjs) -> (Outcome, Vec<Claim>) {
+    eval_caught(op, sh, rs, tl)
+}
+pub fn view_key_pub(plan: &SchedPlan, op: &Op) -> String {
+    view_key(plan, op)
 }
